@@ -5,6 +5,7 @@ import (
 	"time"
 
 	"github.com/aperturerobotics/util/backoff"
+	"github.com/aperturerobotics/util/verifhook"
 	cbackoff "github.com/cenkalti/backoff/v4"
 )
 
@@ -100,6 +101,7 @@ func (r *runningRoutine[K, V]) execute(
 	exitedCh chan struct{},
 	waitCh <-chan struct{},
 ) {
+	verifhook.Point(verifhook.KeyedExecStart, r.k)
 	var err error
 	if waitCh != nil {
 		select {
@@ -114,11 +116,14 @@ func (r *runningRoutine[K, V]) execute(
 	}
 
 	if err == nil {
+		verifhook.Point(verifhook.KeyedExecCall, r.k)
 		err = r.routine(ctx)
 	}
+	verifhook.Point(verifhook.KeyedExecDone, r.k)
 	cancel()
 	close(exitedCh)
 
+	verifhook.Point(verifhook.KeyedLock, r.k)
 	r.k.mtx.Lock()
 	if r.ctx == ctx {
 		r.err = err
@@ -136,6 +141,7 @@ func (r *runningRoutine[K, V]) execute(
 				dur := r.retryBo.NextBackOff()
 				if dur != backoff.Stop {
 					r.deferRetry = time.AfterFunc(dur, func() {
+						verifhook.Point(verifhook.KeyedTimer, r.k)
 						r.k.mtx.Lock()
 						if r.k.ctx != nil && r.k.routines[r.key] == r && r.exited {
 							r.start(r.k.ctx, r.exitedCh, true)
@@ -176,6 +182,7 @@ func (r *runningRoutine[K, V]) remove() {
 	}
 
 	timerCb := func() {
+		verifhook.Point(verifhook.KeyedTimer, r.k)
 		r.k.mtx.Lock()
 		if r.k.routines[r.key] == r && r.deferRemove != nil {
 			_ = r.deferRemove.Stop()
